@@ -8,7 +8,7 @@ namespace Vgw.Model.Crash
 variable (cfg : Cfg) (rq : Req) (key : Path)
 
 -- `apply WritesIn.append` must split the plans only at their own `++`
-attribute [local irreducible] publish storeAttrs storeAttr mkdirAll openTmp archive deleteAttrs deleteAttr
+attribute [local irreducible] publish publishR publishC storeAttrs storeAttr mkdirAll openTmp archive deleteAttrs deleteAttr
   deleteNullVersion removeParents planPutSpec prePut preUploadPart preComplete cleanupUpload
 
 theorem tmpDir_prefix_mpObjDir (k : Path) : tmpDir cfg <+: mpObjDir cfg k := List.prefix_append _ _
@@ -56,11 +56,12 @@ theorem owned_archive (fs : FS) : WritesOwned cfg key (archive cfg rq fs key) :=
       rcases h with h | h
       · exact owned_near_dir_V (Or.inr (ref_openTmp cfg fs 1 _ _ _ q h))
       · rw [hvp] at h; exact owned_side_V h
-    · refine WritesOwned.of (writes_publish _ _ _) (fun q h => ?_)
-      rcases h with h | h | h
+    · refine WritesOwned.of (writes_publishC cfg _ _ _ _ _) (fun q h => ?_)
+      rcases h with h | h | h | h
       · subst h; rw [hvp]; exact owned_V ⟨_, rfl⟩
       · rw [hvp] at h; exact owned_near_dir_V (Or.inl h)
       · exact owned_near_dir_V (Or.inr (ref_openTmp cfg fs 1 _ _ _ q h))
+      · subst h; exact owned_V ⟨_, rfl⟩
   · exact WritesIn.nil _
 
 theorem owned_removeParents (fs : FS) (rel : Path) (fuel : Nat) (hrel : rel <+: key) :
@@ -106,11 +107,12 @@ theorem owned_planPutSpec (fs : FS) (sp : PutSpec) : WritesOwned cfg key (planPu
   have hobj : ∀ q : Path, q = objPath cfg key → Owned cfg key q := fun q h => owned_prefix_obj (h ▸ List.prefix_refl _)
   repeat' apply WritesIn.append
   · exact owned_prePut cfg rq key fs sp
-  · refine WritesOwned.of (writes_publish _ _ _) (fun q h => ?_)
-    rcases h with h | h | h
+  · refine WritesOwned.of (writes_publishC cfg _ _ _ _ _) (fun q h => ?_)
+    rcases h with h | h | h | h
     · exact hobj q h
     · exact owned_prefix_obj h.1
     · exact owned_tmp (ref_openTmp cfg fs 0 _ _ _ q h)
+    · exact owned_tmp (h ▸ List.prefix_append _ _)
   · refine WritesOwned.of (writes_storeAttrs cfg _ _ _ _) (fun q h => ?_)
     rcases h with h | h
     · exact hobj q (by simpa [Ref.paths] using h)
@@ -178,11 +180,12 @@ theorem owned_planUploadPart (fs : FS) : WritesOwned cfg rq.key (planUploadPart 
   have hpp : tmpDir cfg <+: mpDir cfg rq.key rq.upload ++ [rq.partNo] := hpart ▸ List.prefix_append _ _
   apply WritesIn.append
   · exact owned_preUploadPart cfg rq fs
-  · refine WritesOwned.of (writes_publish _ _ _) (fun q h => ?_)
-    rcases h with h | h | h
+  · refine WritesOwned.of (writes_publishC cfg _ _ _ _ _) (fun q h => ?_)
+    rcases h with h | h | h | h
     · exact owned_tmp (h ▸ hpp)
     · exact owned_above_tmp hpp h.1 h.2
     · exact owned_tmp (hod.trans (ref_openTmp cfg fs 0 _ _ _ q h))
+    · exact owned_tmp (h ▸ List.prefix_append _ _)
 
 theorem owned_preComplete (fs : FS) : WritesOwned cfg rq.key (preComplete cfg rq fs) := by
   unfold preComplete
@@ -228,11 +231,12 @@ theorem owned_planComplete (fs : FS) : WritesOwned cfg rq.key (planComplete cfg 
   refine WritesIn.ite (WritesIn.nil _) (WritesIn.ite (WritesIn.nil _) ?_)
   repeat' apply WritesIn.append
   · exact owned_preComplete cfg rq fs
-  · refine WritesOwned.of (writes_publish _ _ _) (fun q h => ?_)
-    rcases h with h | h | h
+  · refine WritesOwned.of (writes_publishC cfg _ _ _ _ _) (fun q h => ?_)
+    rcases h with h | h | h | h
     · exact hobj q h
     · exact owned_prefix_obj h.1
     · exact owned_tmp (ref_openTmp cfg fs 0 _ _ _ q h)
+    · exact owned_tmp (h ▸ List.prefix_append _ _)
   · exact owned_cleanupUpload cfg rq _
 
 /-- Every step of every plan writes only paths owned by the request's key. -/
